@@ -14,7 +14,8 @@
 Require Import Arith List Bool ZArith String QArith Qcanon.
 From TK Require Import Mat_Sums Mat_Core Mat_Qc Equiv_Model Equiv_Spec Equiv_SpecExec
      Equiv_Proof_Perm Equiv_Proof_Rigid Equiv_Proof_Spectral Equiv_Proof_Affine Equiv_Proof_Knn
-     Equiv_Proof_Exec Equiv_Proof_Align Equiv_Proof_Main Knn_Spec Conn_Model Conn_Spec Conn_Proof_Main Statics.
+     Equiv_Proof_Exec Equiv_Proof_Align Equiv_Proof_Scale Equiv_Effects Equiv_Proof_Effects Equiv_Proof_Main
+     Knn_Spec Conn_Model Conn_Spec Conn_Proof_Main Statics.
 Import ListNotations.
 Local Open Scope nat_scope.
 
@@ -402,17 +403,72 @@ Theorem scale_pca_embedding : forall F (Fo : FieldOps F) (Ff : IsField F) n D d 
 Proof. exact main_scale_pca_embedding. Qed.
 Print Assumptions scale_pca_embedding.
 
+(* centerMatrix itself commutes with EVERY scale c (tiny and huge included: a field has no absolute
+   thresholds), for every matrix *)
+Theorem scale_center_matrix : forall F (Fo : FieldOps F) (Ff : IsField F) n c (M : mat F) i j,
+  of_nat n <> 0%F -> center_matrix n (mscale c M) i j = mscale c (center_matrix n M) i j.
+Proof. exact main_scale_center_matrix. Qed.
+Print Assumptions scale_center_matrix.
+
+(* regression theorems for a class of edits (center_matrix_skip is NOT the shipped code): an early-out
+   "all column means pass `small`" is harmless when `small` accepts exact zeros only ... *)
+Theorem center_skip_exact_harmless : forall F (Fo : FieldOps F) (Ff : IsField F) small n (M : mat F),
+  of_nat n <> 0%F -> (forall x, small x = true -> x = 0%F) ->
+  meq n n (center_matrix_skip small n M) (center_matrix n M).
+Proof. exact main_center_skip_exact_harmless. Qed.
+Print Assumptions center_skip_exact_harmless.
+
+(* ... and breaks scale equivariance when it is an absolute threshold (|x| <= 10^-12, the shape of Eigen's
+   isZero()): [[0,1],[1,0]] is centred, 10^-13 times it is not *)
+Theorem center_skip_absolute_refuted :
+  exists n (M : mat Qc) (c : Qc) i j, i < n /\ j < n /\ c <> 0%F /\
+    center_matrix_skip small_abs n (mscale c M) i j <> mscale c (center_matrix_skip small_abs n M) i j.
+Proof. exact main_center_skip_absolute_refuted. Qed.
+Print Assumptions center_skip_absolute_refuted.
+
 (* ======================================================================================= *)
 (* 5. no_hidden_state: the generated inventory of long-lived objects / rand consumers        *)
 (*    (coq/gen/Statics.v, regenerated from the source by translate/t_static.py) restricted   *)
 (*    to the kinds that can carry state equals the hand-written allow-list of Equiv_Spec.v.  *)
 (*    The models above are pure functions; that the listed objects do not influence the      *)
-(*    numbers returned by the deterministic methods is argued in Equiv_Spec.v and TESTED     *)
+(*    numbers returned by the deterministic methods is argued in Equiv_Spec.v, reduced to an  *)
+(*    observable by section 5b (Equiv_Effects.v) and TESTED                                  *)
 (*    by the history stream of the check (bitwise), not proved: hence `_partial`.            *)
 (* ======================================================================================= *)
 Theorem no_hidden_state_partial : inventory_ok Statics.inventory = true.
 Proof. exact main_no_hidden_state_partial. Qed.
 Print Assumptions no_hidden_state_partial.
+
+(* 5b. HOW the allow-listed objects can reach a call (Equiv_Effects.v: a call is a program over
+   Draw = std::rand, Shuffle = random_shuffle's generator, Log = message_<level>, which has no answer;
+   `effects p s` = draws + shuffles on the executed path = what the embed driver observes for every call).
+   A call that is observed to draw nothing returns the same value from EVERY process state, draws nothing
+   there either and leaves both streams untouched; hence after ANY history its result is the result in a
+   fresh process; the logger (flags and ps_sink) never matters, draws or not; a drawing call does depend on
+   the state (the randomised methods: the statement excludes them). *)
+Theorem draw_free_call_state_independent : forall A (p : prog A) s,
+  effects p s = 0 ->
+  forall s', fst (run p s') = fst (run p s) /\ effects p s' = 0 /\
+             ps_pos (snd (run p s')) = ps_pos s' /\ ps_shuf (snd (run p s')) = ps_shuf s'.
+Proof. exact main_draw_free_call_state_independent. Qed.
+Print Assumptions draw_free_call_state_independent.
+
+Theorem draw_free_call_history_independent : forall A (h : list (prog unit)) (p : prog A) s0,
+  effects p s0 = 0 -> forall s, fst (run_history h p s) = fst (run p s0).
+Proof. exact main_draw_free_call_history_independent. Qed.
+Print Assumptions draw_free_call_history_independent.
+
+Theorem logger_never_matters : forall A (p : prog A) s s',
+  same_streams s s' ->
+  fst (run p s) = fst (run p s') /\ effects p s = effects p s' /\
+  same_streams (snd (run p s)) (snd (run p s')).
+Proof. exact main_logger_never_matters. Qed.
+Print Assumptions logger_never_matters.
+
+Theorem drawing_call_depends_on_state_refuted :
+  exists (p : prog nat) s s', effects p s = 1 /\ fst (run p s) <> fst (run p s').
+Proof. exact main_drawing_call_depends_on_state_refuted. Qed.
+Print Assumptions drawing_call_depends_on_state_refuted.
 
 (* ======================================================================================= *)
 (* 6. the extracted functions are the tables of the functions above; the extracted checkers  *)
@@ -457,3 +513,12 @@ Proof. exact (conj (proj1 nv_eig_answer) (conj (proj2 nv_eig_answer) nv_sizes)).
 
 Example hyps_knn_satisfiable : zbij 5 (fun i => i) (fun i => i).
 Proof. exact (zbij_id 5). Qed.
+
+Example hyps_scale_center_satisfiable :
+  @of_nat Qc QcOps 2 <> 0%F /\
+  meq 2 2 (center_matrix 2 (mscale w_tiny w_M2)) (mscale w_tiny (center_matrix 2 w_M2)).
+Proof. exact (conj (Qc_of_nat_neq0 2 (Nat.neq_succ_0 1)) center_scale_on_witness). Qed.
+
+Example hyps_draw_free_satisfiable :
+  exists (p : prog nat) s, effects p s = 0 /\ fst (run p s) = 7.
+Proof. exact no_effects_nonvacuous. Qed.
